@@ -23,5 +23,7 @@ try:
             print("%s silent" % p)
 finally:
     shutil.rmtree(root, ignore_errors=True)
-    if fdir:
+    if fdir and os.environ.get("KEEP"):
+        print("FACTS=" + fdir)
+    elif fdir:
         shutil.rmtree(fdir, ignore_errors=True)
